@@ -159,6 +159,9 @@ def make_field(rng, n, n_pol, noise_kind, real=False):
         nz = nz + 0j if not real else nz
     elif noise_kind == "zeros":
         nz = np.zeros(shape, dtype=float if real else complex)
+    s = core.degenerate_rows(rng, s, every=8, rows_only=True)
+    if noise_kind == "random":
+        nz = core.degenerate_rows(rng, nz, every=5, rows_only=True)       # noise in one polarisation only, the same noise in both, ...
     return T.optical_signal(s, nz)
 
 
